@@ -6,10 +6,12 @@ pub mod c01;
 pub mod c03;
 pub mod c05;
 pub mod c06;
+pub mod c08;
 pub mod c09;
 pub mod c10;
 pub mod c13;
 pub mod c14;
+pub mod c15;
 
 pub struct Prop {
     pub id: &'static str,
@@ -24,9 +26,11 @@ pub fn all() -> Vec<Prop> {
         Prop { id: "C03", run: c03::run, replay: c03::replay },
         Prop { id: "C05", run: c05::run, replay: c05::replay },
         Prop { id: "C06", run: c06::run, replay: c06::replay },
+        Prop { id: "C08", run: c08::run, replay: c08::replay },
         Prop { id: "C09", run: c09::run, replay: c09::replay },
         Prop { id: "C10", run: c10::run, replay: c10::replay },
         Prop { id: "C13", run: c13::run, replay: c13::replay },
         Prop { id: "C14", run: c14::run, replay: c14::replay },
+        Prop { id: "C15", run: c15::run, replay: c15::replay },
     ]
 }
